@@ -113,6 +113,22 @@ func (m *Machine) exec(fr *frame, ins ssa.Instruction) {
 		} else {
 			fr.locals[x] = Tuple{[]Value{Bool{m.C.Bool(false)}, nil, nil}}
 		}
+	case *ssa.Select:
+		// only the non-blocking poll of channels that are all nil (context.Background().Done()) is modelled:
+		// the default case is taken
+		if x.Blocking {
+			panic(unsupported("blocking select in " + fr.fn.String()))
+		}
+		res := Tuple{V: []Value{Int{m.i64(-1)}, m.truth(false)}}
+		for _, st := range x.States {
+			if p, ok := m.get(fr, st.Chan).(Ptr); !ok || p.Obj != nil {
+				panic(unsupported("select on a non-nil channel in " + fr.fn.String()))
+			}
+			if st.Dir == types.RecvOnly {
+				res.V = append(res.V, m.zeroValue(st.Chan.Type().Underlying().(*types.Chan).Elem()))
+			}
+		}
+		fr.locals[x] = res
 	case *ssa.Slice:
 		fr.locals[x] = m.sliceOp(fr, x)
 	case *ssa.Store:
